@@ -14,6 +14,7 @@ import (
 	"strings"
 	"time"
 
+	"github.com/pilosa/pilosa/internal/vkit"
 	"pgregory.net/rapid"
 )
 
@@ -453,7 +454,7 @@ func vc09GenHistory(t *rapid.T) *vc09History {
 	}
 	h.Writes = append(h.Writes, w0)
 
-	n := rapid.IntRange(1, 14).Draw(t, "nWrites")
+	n := rapid.IntRange(1, vkit.Scale(8, 14)).Draw(t, "nWrites")
 	for i := 0; i < n; i++ {
 		var w vc09Write
 		kind := rapid.SampledFrom([]string{
